@@ -886,8 +886,20 @@ def fixed_docs():
         {"kind": "enum", "name": "Color", "members": [("Red", 1), ("Blue", 5)]},
         {"kind": "typedef", "name": "Ints", "ty": ("list", ("i32",))},
         {"kind": "typedef", "name": "Colour", "ty": R("Color")},
+        # chains of aliases (alias of alias of a base type / enum / container / struct): the wire type of a field is that of the end of the chain
+        {"kind": "typedef", "name": "UserId", "ty": ("i64",)}, {"kind": "typedef", "name": "AccountId", "ty": R("UserId")},
+        {"kind": "typedef", "name": "DeepId", "ty": R("AccountId")}, {"kind": "typedef", "name": "Colour2", "ty": R("Colour")},
+        {"kind": "typedef", "name": "Ints2", "ty": R("Ints")}, {"kind": "typedef", "name": "Flag", "ty": ("bool",)}, {"kind": "typedef", "name": "Flag2", "ty": R("Flag")},
+        {"kind": "typedef", "name": "Name", "ty": ("string",)}, {"kind": "typedef", "name": "Name2", "ty": R("Name")},
         {"kind": "struct", "name": "Inner", "fields": [F(1, "a", ("i32",), "required"), F(2, "s", ("string",), "optional", ("str", "hi")), F(3, "flag", ("bool",), "default", ("int", 1))]},
         {"kind": "union", "name": "Un", "fields": [F(1, "x", ("i32",)), F(2, "y", ("string",)), F(3, "z", R("Inner")), F(4, "b", ("bool",))]},
+        {"kind": "typedef", "name": "InnerAlias", "ty": R("Inner")}, {"kind": "typedef", "name": "InnerAlias2", "ty": R("InnerAlias")},
+        {"kind": "struct", "name": "Chain", "fields": [
+            F(1, "acct", R("AccountId"), "required"), F(2, "deep", R("DeepId"), "optional"), F(3, "col", R("Colour2"), "optional"),
+            F(4, "ints", R("Ints2"), "default", ("list", [("int", 4)])), F(5, "inner", R("InnerAlias2"), "optional"), F(6, "flag", R("Flag2"), "required"),
+            F(7, "name", R("Name2"), "optional", ("str", "n")), F(8, "by_acct", ("map", R("AccountId"), R("Colour2")), "optional"),
+            F(9, "deeps", ("list", R("DeepId")), "optional"), F(10, "flags", ("list", R("Flag2")), "optional"), F(11, "user", R("UserId"), "optional", ("int", 7))]},
+        {"kind": "union", "name": "ChainU", "fields": [F(1, "acct", R("AccountId")), F(2, "flag", R("Flag2")), F(3, "inner", R("InnerAlias2")), F(4, "ints", R("Ints2"))]},
         {"kind": "struct", "name": "Outer", "fields": [
             F(1, "inner", R("Inner"), "required"), F(2, "inners", ("list", R("Inner")), "optional"), F(3, "us", ("map", ("string",), R("Un"))),
             F(4, "c", R("Color"), "optional", ("enum", "Color", "Blue")), F(5, "ints", R("Ints"), "default", ("list", [("int", 1), ("int", 2)])),
